@@ -168,21 +168,56 @@ def races(ctx, binp, only=None, res=None):
             continue
         ctx.evaluations += rounds
         if bad > 0:
-            ctx.violation("race:" + name, RACE_WHAT.get(name, name) + " (%d of %d rounds)" % (bad, rounds),
+            shape = ctx.corr.get("tree_shape") if isinstance(ctx.corr.get("tree_shape"), dict) else {}
+            if name in ("lookup-vs-topic-delete", "nodes-vs-topic-delete") and shape.get("readersAtomic") == "true":
+                # the facts say the reader is ONE critical section (concurrent_*_linearizable_fixed): a torn answer is then
+                # not the known finding but a new one
+                name += ":although-one-critical-section"
+            ctx.violation("race:" + name, RACE_WHAT.get(name.split(":")[0], name) + " (%d of %d rounds)" % (bad, rounds),
                           "race %s\n# run: ./check C14 --replay corpus/C14/known/races.ops\n" % name)
     return []
 
 
+def tree_shape(ctx):
+    """which critical-section shape the regenerated facts found (the Bools the `…_tree` theorems are stated over)"""
+    from framework import LEAN, sh
+    f = os.path.join(ctx.work, "shape.lean")
+    with open(f, "w") as fh:
+        fh.write("import Nsq.Tie.Registry\nopen Nsq.Tie.Registry in\n#eval IO.println s!\"SHAPE treeAtomic={treeAtomic} "
+                 "unregisterAtomic={unregisterAtomic} readersAtomic={readersAtomic} tombstoneAtomic={tombstoneAtomic}\"\n")
+    rc, out = sh(["lake", "env", "lean", f], cwd=LEAN, timeout=300)
+    m = [l for l in out.splitlines() if l.startswith("SHAPE ")]
+    shape = dict(kv.split("=") for kv in m[0].split()[1:]) if m else {}
+    ctx.corr["tree_shape"] = shape or ("not evaluated (tie does not build): " + out[-200:])
+    return shape
+
+
 def run(ctx):
-    ctx.trusted += e4.TRUSTED
+    ctx.trusted += [t for t in e4.TRUSTED if not t.startswith("Go memory model")]
+    ctx.trusted.append(
+        "Go memory model: a RegistrationDB method body between Lock/RLock and the deferred unlock is one atomic step w.r.t. "
+        "every other such body (sync.RWMutex). WHICH handlers are one such body is not trusted: regenerated lock/call facts "
+        "(Tie.Registry register_shape, unregister_shape, admin_topic_shape: fixed shapes only; readers_shape, tombstone_shape: "
+        "tree or F37/F38) compute treeAtomic / readersAtomic / tombstoneAtomic, the theorems `…_tree` are stated over them")
     ctx.assumptions += [
         "Nsq.Props.C14 (deterministic part) carries Op.modelled / t != '*'; Nsq.Props.C14Star removes both: POST "
         "/topic/tombstone?topic=* and GET /lookup?topic=* are modelled as SETS of allowed results (one per admissible "
         "outcome `pick` of Go's map iteration); the harness reads the outcome off the real run and model + oracle accept "
         "or refuse it",
-        "handler calls do not overlap in time (sequential histories; the concurrent leg checks quiescent points "
-        "of histories whose concurrent operations touch disjoint names). For overlapping calls on the SAME names the "
-        "statement is false (Lean: concurrent_*_linearizable_false; known findings race:*)",
+        "refines_run / history_answers are about histories whose handler calls do not overlap (one call = one step). "
+        "Overlapping calls: the WRITERS REGISTER, UNREGISTER channel, /topic/create|delete, /channel/create are one critical "
+        "section each on this tree (facts; concurrent_schedules_linearizable_tree) and so linearize; the READERS GET /lookup "
+        "and GET /nodes are several critical sections unless fixes/F37 is applied: concurrent_readers_linearizable_tree says "
+        "their answers are those of one serial order IFF readersAtomic, which the facts compute (false on the tree as it is: "
+        "concurrent_lookup_delete_linearizable_false, concurrent_nodes_delete_linearizable_false; known findings "
+        "race:lookup-vs-topic-delete, race:nodes-vs-topic-delete replayed on every run). Handlers that remain several "
+        "sections by design (UNREGISTER topic, the IOLoop exit = disconnect, /channel/delete) only remove: a reader sees "
+        "the registry after a PREFIX of their sections (atomic_reader_sees_prefix), e.g. a disconnecting node with part "
+        "of its topics",
+        "ASSUMPTION until fixes/F37+F38 are committed (tombstoneAtomic = false on this tree): the model's tombstone step "
+        "(tombstoneDB, one step) is atomic in the code. It is NOT: doTombstoneTopicProducer calls p.Tombstone() with no lock "
+        "held while FilterByActive / IsTombstoned / doDebug read the fields - a Go data race (known finding "
+        "race:tombstone-unlocked-write, replayed with a -race build on every run). Sequential histories are unaffected",
     ]
     ctx.rule = ("every history of length L over the full alphabet (2 producers x {IDENTIFY, PING, disconnect, "
                 "REGISTER/UNREGISTER x 2 topics (one #ephemeral) x {no channel, c, d#ephemeral}} + create/delete "
@@ -195,6 +230,9 @@ def run(ctx):
     pool = concurrent.futures.ThreadPoolExecutor(max_workers=1)
     race_bin = pool.submit(ctx.go_test_binary, "nsqlookupd", e4.HARNESS, "e4c14race", None, "verif", True)
     e4.lean_side(ctx, PROPS)
+    shape = tree_shape(ctx)
+    if shape:
+        print("tree shape (from regenerated facts): " + " ".join("%s=%s" % kv for kv in sorted(shape.items())))
     broken = []
     binp = e4.build_harness(ctx, "e4c14")
     first = e4.read_lines(ctx.replay_in)[:10] if ctx.replay_in else []
